@@ -164,11 +164,14 @@ def same(cl, lay1, lay2):
         cl.eq(f"determinism: {n}.y", y1, y2)
 
 
-def all_clauses(ctx, case, m, syn, ordered, sizes, per_kind, params):
+def all_clauses(ctx, case, m, syn, ordered, sizes, per_kind, params, prior=None):
     cl = Clauses(ctx)
+    # ONE reconciliation object for the three computations (vertical, horizontal, vertical again): "computing the layout twice gives
+    # identical results" is about the same object, and so is the mirror relation a user observes
+    rec, _, _ = RC.build_rec(case, m, syn, ordered)
+    RC.draw_prior(case, rec.input, prior)
 
     def lay(orient, swap):
-        rec, _, _ = RC.build_rec(case, m, syn, ordered)
         return RC.run_layout(rec, orient, sizes, per_kind, params, swap=swap, render=True)[0]
 
     layV = lay(Orientation.VERTICAL, False)
@@ -186,7 +189,7 @@ def count_branches(case, m):
     return case.O.n + cnt[3]
 
 
-def concrete_failures(desc, m, syn, ordered, per_kind, sym_params, values):
+def concrete_failures(desc, m, syn, ordered, per_kind, sym_params, values, prior=None):
     case = H.Case(desc)
     m = {int(k): v for k, v in m.items()}
     syn2 = {int(k): tuple(v) for k, v in syn.items()} if syn is not None else None
@@ -197,7 +200,7 @@ def concrete_failures(desc, m, syn, ordered, per_kind, sym_params, values):
         sizes = [(conv(w), conv(h)) for w, h in sizes]
         params = {k: conv(v) for k, v in params.items()}
         try:
-            cl = all_clauses(None, case, m, syn2, ordered, sizes, per_kind, params)
+            cl = all_clauses(None, case, m, syn2, ordered, sizes, per_kind, params, prior)
             out[label] = cl.failed_concrete()
         except Exception as e:
             out[label] = [f"exception {type(e).__name__}: {e}"]
@@ -205,7 +208,8 @@ def concrete_failures(desc, m, syn, ordered, per_kind, sym_params, values):
 
 
 def replay(data):
-    r = concrete_failures(data["desc"], data["mapping"], data.get("syn"), data.get("ordered"), data["per_kind"], data["sym_params"], RC.unfrac(data["values"]))
+    r = concrete_failures(data["desc"], data["mapping"], data.get("syn"), data.get("ordered"), data["per_kind"], data["sym_params"], RC.unfrac(data["values"]),
+                          data.get("after"))
     for k, v in r.items():
         print(f"  {k}: {v[:4]}")
     return bool(r["exact rationals"])
@@ -224,10 +228,10 @@ def worker(item):
         ctx, sizes, params = RC.make_ctx(nb, per_kind, sym_params, item["max_paths"], item["budget_s"])
         for _ in ctx.paths():
             try:
-                cl = all_clauses(ctx, case, m, syn, ordered, sizes, per_kind, params)
+                cl = all_clauses(ctx, case, m, syn, ordered, sizes, per_kind, params, item.get("after"))
             except Exception as e:
                 vals = ctx.model_values()
-                cf = concrete_failures(desc, item["mapping"], item.get("syn"), ordered, per_kind, sym_params, vals)
+                cf = concrete_failures(desc, item["mapping"], item.get("syn"), ordered, per_kind, sym_params, vals, item.get("after"))
                 out["obligations"] += 1
                 out["violations"].append(_viol(item, f"exception {type(e).__name__}: {e}", vals, cf))
                 break
@@ -239,7 +243,7 @@ def worker(item):
                 model = ctx.prove(z3.And(*[c for _, c in claims]))
             if bad or model is not None:
                 vals = model if model is not None else ctx.model_values()
-                cf = concrete_failures(desc, item["mapping"], item.get("syn"), ordered, per_kind, sym_params, vals)
+                cf = concrete_failures(desc, item["mapping"], item.get("syn"), ordered, per_kind, sym_params, vals, item.get("after"))
                 which = bad or cf["exact rationals"]
                 out["violations"].append(_viol(item, f"{which[:3]}", vals, cf))
                 break
@@ -259,11 +263,11 @@ def worker(item):
 
 
 def _viol(item, text, vals, cf):
-    return {"kind": "geometry", "text": f"{text}; input {item['desc']}; mapping {item['mapping']}; sizes/params {RC.frac_str(vals)}; concrete: "
+    return {"kind": "geometry", "text": f"{text}; input {item['desc']}; mapping {item['mapping']}" + (f" (drawn after reconciliation {item['after']} of the same input object)" if item.get("after") else "") + f"; sizes/params {RC.frac_str(vals)}; concrete: "
                                         f"{ {k: v[:2] for k, v in cf.items()} }",
             "signature": {"kind": "geometry", "desc": item["desc"], "mapping": item["mapping"], "clause": text[:80]},
             "data": {"desc": item["desc"], "mapping": item["mapping"], "syn": item.get("syn"), "ordered": item.get("ordered"),
-                     "per_kind": item["per_kind"], "sym_params": item["sym_params"], "values": RC.frac_str(vals)},
+                     "per_kind": item["per_kind"], "sym_params": item["sym_params"], "values": RC.frac_str(vals), "after": item.get("after")},
             "confirmed": bool(cf["exact rationals"])}
 
 
@@ -275,6 +279,10 @@ def rec_items(rng, desc, nrec, section, per_kind, sym_params, max_paths, budget_
     for m, cnt, ev, kept in recs:
         it = {"desc": desc, "mapping": {str(k): v for k, v in m.items()}, "per_kind": per_kind, "sym_params": sym_params,
               "section": section, "max_paths": max_paths, "budget_s": budget_s}
+        if len(orc.recs) > 1 and rng.random() < 0.5:
+            # history: another valid reconciliation of the SAME input object is drawn first
+            other = rng.choice([r for r in orc.recs if r[0] != m])
+            it["after"] = {str(k): v for k, v in other[0].items()}
         if case.leafsyn is not None and rng.random() < labelled_p:
             labs = [s for s, _ in LB.unordered_labellings(case.O, case.leafsyn)]
             syn = rng.choice(labs)
